@@ -24,6 +24,8 @@ def build(case):
     from cspuz import Solver, graph
 
     s = Solver()
+    if case.get("used"):
+        gcheck.junk(s)
     fn = graph.active_vertices_not_adjacent_and_not_segmenting if case["seg"] else graph.active_vertices_not_adjacent
     route = case["route"]
     if route == "grid":
@@ -137,9 +139,18 @@ def cases_for(tier):
     return out
 
 
+def _small(c):
+    """Cases cheap enough to repeat on a Solver that is already in use."""
+    if "shape" in c:
+        return (c["shape"][0] + 1) * (c["shape"][1] + 1) <= 9
+    return c.get("n", 9) <= 3 and len(c.get("edges", ())) <= 4
+
+
 def prepare(tier):
     global _CASES
-    _CASES = cases_for(tier)
+    base_cases = cases_for(tier)
+    used = [dict(c, used=True) for c in base_cases[:: (7 if tier == "quick" else 3)] if _small(c)]
+    _CASES = base_cases + used
     return _CASES
 
 
